@@ -2076,6 +2076,11 @@ func runnerState(repo string) (string, error) {
 		return "", err
 	}
 	sb.WriteString(pw)
+	cs, err := wkCacheStores(repo)
+	if err != nil {
+		return "", err
+	}
+	sb.WriteString(cs)
 	return sb.String(), nil
 }
 
